@@ -9,6 +9,7 @@ mod m_c14;
 mod m_c04pkt;
 mod pkt;
 mod m_c16grid;
+mod m_cfgmap;
 mod m_c20;
 mod m_recv;
 mod m_faults;
@@ -78,6 +79,7 @@ fn main() {
         "tsops" => m_tsops::run(&args, &mut out),
         "c20" => m_c20::run(&args, &mut out),
         "recv" => m_recv::run(&args, &mut out),
+        "cfgmap" => m_cfgmap::run(&args, &mut out),
         "c16grid" => m_c16grid::run(&args, &mut out),
         other => { eprintln!("unknown mode {other}"); std::process::exit(2); }
     }
